@@ -651,7 +651,8 @@ def block_container_layout(context, box, bottom_space, skip_stack,
 
     if draw_bottom_decoration:
         bottom_space += (
-            box.padding_bottom + box.border_bottom_width + box.margin_bottom)
+            box.padding_bottom + box.border_bottom_width +
+            max(0, box.margin_bottom))
 
     adjoining_margins.append(box.margin_top)
     this_box_adjoining_margins = adjoining_margins
